@@ -12,8 +12,8 @@ from .kernel import _addr_raw
 KINDS_C11 = ('invalid_ke_never_offered', 'foreign_child_response', 'foreign_init_response', 'multi_proposal_request', 'foreign_ike_rekey_response', 'ke_unimplemented_group')
 KINDS_C10 = ('bad_reply',)
 KINDS_C17 = ('auth_malformed',)
-KINDS_C14 = ('reuse_spi_request',)
-KINDS_C12 = ('widen_response', 'flip_mode_response', 'ts_list_request', 'narrow_rekey_response', 'flip_mode_request', 'narrow_rekey_request')
+KINDS_C14 = ('reuse_spi_request', 'range_request')
+KINDS_C12 = ('widen_response', 'flip_mode_response', 'ts_list_request', 'narrow_rekey_response', 'flip_mode_request', 'narrow_rekey_request', 'range_request')
 
 
 def _rb(r, n):
@@ -802,6 +802,61 @@ def make(kind, seed, world, ip, tap, reach):
             for pr in sa['proposals']:
                 pr['spi'] = spi
             count('byz.' + kind)
+            new = ip.seal(s, {'spi_i': h['spi_i'], 'spi_r': h['spi_r'], 'exch': h['exch'], 'I': h['I'], 'R': False, 'id': h['id']}, pls, _rb(r, 16))
+            return [(new, 0.0)]
+        rule.label = 'byz.' + kind
+        return rule, lambda w: None
+
+    # ------------------------------------------------------------------------------------------------------------
+    if kind == 'range_request':
+        # a peer whose selectors are real ranges (legal, RFC 7296 3.13.1): addresses first..last that are no CIDR block (also ranges that
+        # straddle a power-of-two boundary), ports like 0-1023 or 1024-65535.  What the kernel is told then is the smallest network holding
+        # the range and never more ports than were negotiated
+        def rule(meta, data):
+            try:
+                h = R.dec_header(data)
+            except R.DecodeError:
+                return None
+            if h['R'] or h['exch'] not in (R.IKE_AUTH, R.CREATE_CHILD_SA):
+                return None
+            opened = ip.open(data)
+            if opened is None:
+                return None
+            _, pls, s = opened
+            sa = next((p for p in pls if p['type'] == R.P_SA), None)
+            if sa is None or not sa['proposals'] or sa['proposals'][0]['proto'] == R.PROTO_IKE:
+                return None
+            if any(p['type'] == R.P_NOTIFY and p['ntype'] == R.N_REKEY_SA for p in pls):
+                return None
+            r = random.Random(f'byz:{seed}:{meta["key"]}')
+            done = []
+            for name, t in (('tsi', R.P_TSi), ('tsr', R.P_TSr)):
+                p = next((p for p in pls if p['type'] == t), None)
+                if p is None or not p['selectors'] or r.random() < 0.3:
+                    continue
+                sel = p['selectors'][-1]        # (the widest one: a pyikev2 initiator puts the selector of the triggering packet in front)
+                n = len(sel['saddr'])
+                a, z = int.from_bytes(sel['saddr'], 'big'), int.from_bytes(sel['eaddr'], 'big')
+                how = r.choice(['addr', 'addr', 'port', 'both'])
+                if how in ('addr', 'both') and z - a >= 15:
+                    span = r.choice([1, 2, 3, 5, 6, 9, 12])
+                    if r.random() < 0.6:
+                        # across an alignment boundary of the block
+                        mid = a + (z - a + 1) // r.choice([2, 4])
+                        lo = mid - r.randint(1, span)
+                    else:
+                        lo = a + r.randint(1, min(z - a - span - 1, 4000))
+                    sel['saddr'], sel['eaddr'] = lo.to_bytes(n, 'big'), (lo + span).to_bytes(n, 'big')
+                    done.append(name + '.addr')
+                if how in ('port', 'both') and (sel['sport'], sel['eport']) == (0, 65535) and sel['proto'] in (6, 17):
+                    sel['sport'], sel['eport'] = r.choice([(0, 1023), (1024, 65535), (1000, 2000), (0, 79), (5000, 5001), (1, 65535)])
+                    done.append(name + '.port')
+                p['selectors'] = [sel]
+            if not done:
+                return None
+            count('byz.' + kind)
+            for d in done:
+                count('byz.range.' + d.split('.')[1])
             new = ip.seal(s, {'spi_i': h['spi_i'], 'spi_r': h['spi_r'], 'exch': h['exch'], 'I': h['I'], 'R': False, 'id': h['id']}, pls, _rb(r, 16))
             return [(new, 0.0)]
         rule.label = 'byz.' + kind
